@@ -525,9 +525,9 @@ pub fn observe(verbose: bool, ase: &AsepriteFile, input_len: usize, o: &mut Vec<
                         img
                     ));
                     let mut xs: Vec<u32> = sel(tm.width() as usize + 3, 12).iter().map(|&x| x as u32).collect();
-                    xs.extend_from_slice(&[2147483647, 2147483648, 4294967295]);
+                    xs.extend_from_slice(&[32768, 65535, 65536, 65537, 69999, 70000, 98302, 2147483647, 2147483648, 4294967295]);
                     let mut ys: Vec<u32> = sel(tm.height() as usize + 3, 12).iter().map(|&x| x as u32).collect();
-                    ys.extend_from_slice(&[2147483648, 4294967295]);
+                    ys.extend_from_slice(&[65535, 65536, 69999, 70000, 2147483648, 4294967295]);
                     let mut cells: Vec<String> = Vec::new();
                     for &y in &ys {
                         for &x in &xs {
@@ -662,7 +662,27 @@ fn start_watchdog(t0: std::time::Instant) {
     });
 }
 
+/// A `log` logger that admits every level and formats every record: an embedding application
+/// may have logging enabled, and the arguments of the library's log statements are only evaluated
+/// then.
+struct SinkLogger;
+
+impl log::Log for SinkLogger {
+    fn enabled(&self, _: &log::Metadata) -> bool {
+        true
+    }
+    fn log(&self, record: &log::Record) {
+        let s = format!("{}", record.args());
+        std::hint::black_box(s.len());
+    }
+    fn flush(&self) {}
+}
+
+static SINK_LOGGER: SinkLogger = SinkLogger;
+
 fn main() {
+    let _ = log::set_logger(&SINK_LOGGER);
+    log::set_max_level(log::LevelFilter::Trace);
     assert_send_sync::<AsepriteFile>();
     panic::set_hook(Box::new(|_| {}));
     let t0 = std::time::Instant::now();
